@@ -3,12 +3,17 @@ package props
 import (
 	"bytes"
 	"context"
+	"errors"
 	"fmt"
 	"io"
+	"net"
+	"strings"
+	"time"
 
 	"github.com/cloudwego/hertz/pkg/app"
 
 	"verifsim/core"
+	"verifsim/wire"
 )
 
 func init() {
@@ -18,7 +23,7 @@ func init() {
 		Real:           []string{"ext.bodyStream.Read/skipRest/ReleaseBodyStream", "ext.ReadBodyWithStreaming", "req.ReadBodyStream/ContinueReadBodyStream", "utils.ParseChunkSize/SkipCRLF", "http1.Server.Serve", "standard.Conn"},
 		Stub:           []string{"TCP (SimConn)", "peer (scripted actor)", "transporter accept loop (stub)", "clock (synctest)"},
 		Assumptions:    []string{"standard transport only", "MaxRequestBodySize left at its default (above every generated body)"},
-		RequiredProbes: []string{"fragments", "stop-early", "stop-mid-chunk", "never-touch", "read-past-eof", "chunked", "fixed-over-prefetch", "probe-after-response", "probe-pipelined", "exhaustive-stop", "hostile-body"},
+		RequiredProbes: []string{"fragments", "stop-early", "stop-mid-chunk", "never-touch", "read-past-eof", "chunked", "fixed-over-prefetch", "probe-after-response", "probe-pipelined", "exhaustive-stop", "hostile-body", "bad-trailer", "stall"},
 	}
 }
 
@@ -26,6 +31,11 @@ func RunC14(ep *core.Episode) {
 	tp := ep.Tape
 	o := SrvOpts{Stream: true}
 	o.BufSize = tp.Pick("bufsize", 4096, 8192, 16384)
+	stall := ep.Param("stall") != "off" && tp.Chance("stall", 1, 6)
+	if stall {
+		o.ReadTimeout = 50 * time.Millisecond
+		o.IdleTimeout = 10 * time.Second
+	}
 	nw := core.NewNet(ep)
 	srv := NewSrv(ep, nw, o)
 
@@ -33,6 +43,17 @@ func RunC14(ep *core.Episode) {
 	gopt := GenOpt{Expect100: true, ChunkExt: true, BigBodies: true, NoBodyGET: true, Hostile: true}
 	gopt.ForceBody = true
 	ga := GenRequest(tp, 0, false, gopt)
+	badTrailer := false
+	if ga.M.Chunked && !stall && tp.Chance("badtrailer", 1, 5) {
+		// a trailer section the parser must reject; if it were taken for a request it would be "POST /smuggled-T"
+		badTrailer = true
+		ga.M.Trailers = []wire.Header{{K: "X", Raw: "POST /smuggled-T HTTP/1.1\r\n"}, {K: "Host", V: "evil"}, {K: "Content-Length", V: "0"}}
+		if tp.Choose("btkind", 2) == 1 {
+			ga.M.Trailers = []wire.Header{{K: "Host", V: "evil"}}
+		}
+		ga.Bytes, ga.Bounds = ga.M.Encode()
+		ep.Probe("bad-trailer")
+	}
 	body := ga.M.Body
 	L := len(body)
 	gb := GenRequest(tp, 1, true, GenOpt{MaxBody: 300, NoBodyGET: true})
@@ -103,9 +124,17 @@ func RunC14(ep *core.Episode) {
 	var invs []inv
 	var got []byte
 	handlerDone := false
+	warmSeen := false
+	stalledRead := false
 	echoB := &Echo{Stream: true}
 	srv.Eng.NoRoute(func(c context.Context, ctx *app.RequestContext) {
 		uri := string(ctx.Request.Header.RequestURI())
+		if uri == "/warm" && !warmSeen {
+			warmSeen = true
+			ctx.SetStatusCode(200)
+			ctx.Response.SetBodyString("warm")
+			return
+		}
 		if len(invs) == 0 && uri == ga.M.Target && string(ctx.Request.Header.Method()) == ga.M.Method {
 			invs = append(invs, inv{which: "A"})
 			defer func() { handlerDone = true }()
@@ -161,6 +190,18 @@ func RunC14(ep *core.Episode) {
 					continue
 				}
 				if err != nil {
+					var ne net.Error
+					if stall && ((errors.As(err, &ne) && ne.Timeout()) || strings.Contains(err.Error(), "timeout")) {
+						// the peer stalled past the server's read timeout: the handler gives up and answers
+						stalledRead = true
+						ep.Fault("stall")
+						break
+					}
+					if badTrailer && len(got) == L {
+						// the body is complete; the malformed trailer section is reported as an error
+						ep.Probe("bad-trailer-error")
+						break
+					}
 					ep.Fail("C14.prefix", "Read failed after %d of %d body bytes: %v", len(got), L, err)
 					return
 				}
@@ -198,7 +239,28 @@ func RunC14(ep *core.Episode) {
 	} else {
 		ep.Probe("probe-pipelined")
 	}
-	ScriptRequests(tp, cl, []*GenReq{ga, gb}, mode2)
+	warm := 0
+	if stall {
+		// the read deadline is only armed from the second request on a connection: warm it up
+		wm := &wire.Msg{Proto: "HTTP/1.1", Method: "GET", Target: "/warm", NoFraming: true, Headers: []wire.Header{{K: "Host", V: "h"}}}
+		wb, _ := wm.Encode()
+		cl.Methods = append(cl.Methods, "GET")
+		cl.Sends = append(cl.Sends, Send{Data: wb, Label: "warm-up"})
+		warm = 1
+		// A: everything up to a point inside the body, then silence for longer than the read timeout, then the rest
+		cut := ga.HeadLen + tp.Choose("stallcut", len(ga.Bytes)-ga.HeadLen)
+		cl.Methods = append(cl.Methods, ga.M.Method, gb.M.Method)
+		cl.Sends = append(cl.Sends, Send{Data: ga.Bytes[:cut], AfterResps: 1, Label: "A-part1"},
+			Send{Data: ga.Bytes[cut:], Delay: 80 * time.Millisecond, Label: "A-rest-after-stall"})
+		after := 1
+		if mode2 == 1 {
+			after = 2
+		}
+		cl.Sends = append(cl.Sends, Send{Data: gb.Bytes, AfterResps: after, Label: "B"})
+		ga.Expect100 = false
+	} else {
+		ScriptRequests(tp, cl, []*GenReq{ga, gb}, mode2)
+	}
 	ep.Logf("A: %s; consume mode=%d stop=%d; B: %s; pipelined=%v bufsize=%d", describeReqs([]*GenReq{ga})[0], mode, stop, describeReqs([]*GenReq{gb})[0], pipelined, o.BufSize)
 	ep.Sig(fmt.Sprintf("A:%v:%s:%d:%v stop:%d:%v", ga.M.Chunked, core.BucketSize(L), len(ga.M.Trailers), ga.Expect100, mode, stop >= 0 && stop < L))
 
@@ -220,6 +282,12 @@ func RunC14(ep *core.Episode) {
 		return
 	}
 	// after the handler: either the server closed, or the next invocation is exactly B
+	if len(invs) == 0 && stall && len(cl.Resps) == 2 && cl.Resps[1].Status == 408 && conn.A.IsClosed() {
+		// the stall hit while the server was still reading the part of the body it prefetches: 408 and close
+		ep.Probe("stall-408")
+		ep.Nontrivial = true
+		return
+	}
 	if len(invs) == 0 {
 		ep.Fail("C14.sync", "request A never reached its handler (serve err=%v, responses %s)", conn.Err, respSummary(cl))
 		return
@@ -244,13 +312,13 @@ func RunC14(ep *core.Episode) {
 			ep.Fail("C14.sync", "B was not served and the connection was not closed")
 			return
 		}
-		if len(cl.Resps) > 1 {
+		if len(cl.Resps) > 1+warm {
 			ep.Fail("C14.sync", "B's handler did not run but %d responses were written: %s", len(cl.Resps), respSummary(cl))
 			return
 		}
 		ep.Probe("closed-after-A")
 	} else {
-		if len(cl.Resps) != 2 || cl.Resps[0].Status != 200 || cl.Resps[1].Status != 200 || len(cl.Leftover()) > 0 {
+		if len(cl.Resps) != 2+warm || cl.Resps[warm].Status != 200 || cl.Resps[warm+1].Status != 200 || len(cl.Leftover()) > 0 {
 			ep.Fail("C14.sync", "responses after A and B: %s leftover=%dB", respSummary(cl), len(cl.Leftover()))
 			return
 		}
@@ -258,13 +326,13 @@ func RunC14(ep *core.Episode) {
 		if gb.M.Method == "HEAD" {
 			want = ""
 		}
-		if string(cl.Resps[1].Body) != want {
-			ep.Fail("C14.sync", "second response body %q, want %q", cl.Resps[1].Body, want)
+		if string(cl.Resps[warm+1].Body) != want {
+			ep.Fail("C14.sync", "second response body %q, want %q", cl.Resps[warm+1].Body, want)
 			return
 		}
 		ep.Probe("B-served")
 	}
-	if stop > L && len(got) != L && !ep.Failed() {
+	if stop > L && len(got) != L && !ep.Failed() && !stalledRead {
 		ep.Fail("C14.prefix", "read to EOF returned %d of %d bytes", len(got), L)
 		return
 	}
